@@ -39,7 +39,7 @@ func gen(t *rapid.T) Case {
 	if cs == 0 {
 		cs = 64
 	}
-	c.Archive = tarmodel.Gen(t, tarmodel.GenOpts{MaxEntries: 14, ChunkSize: cs, Hardlinks: true, Devices: true, Dups: true, Spellings: true, Xattrs: true, RootEntry: true, BigIDs: true})
+	c.Archive = tarmodel.Gen(t, tarmodel.GenOpts{MaxEntries: 14, ChunkSize: cs, Hardlinks: true, Devices: true, Dups: true, DupLinks: true, Spellings: true, Xattrs: true, RootEntry: true, BigIDs: true, ManyChunks: true})
 	c.Producer = rapid.SampledFrom([]string{"build", "build", "build", "writer", "lossless"}).Draw(t, "producer")
 	// reserved names in the input
 	if rapid.IntRange(0, 3).Draw(t, "reserved") == 0 {
@@ -173,6 +173,22 @@ func checkBlob(c Case, input []tarmodel.RawEntry, res *esgzbuild.Built, producer
 	}
 	if len(got) != len(want) {
 		return pbt.Violf("entry-count", "output has %d entries (without additions), input describes %d: out=%v in=%v", len(got), len(want), names(got), names(want))
+	}
+	// an eStargz-agnostic runtime unpacks the stream in order: a hard link whose target has not been unpacked
+	// yet cannot be created (the inputs never have such a link; where the rest ends up is C14's business)
+	pos := map[string]int{}
+	for i, e := range got {
+		pos[e.Clean] = i
+	}
+	for i, e := range got {
+		if producer == "build" && e.Hdr.Typeflag == tar.TypeLink {
+			tgt := tarmodel.Clean(e.Hdr.Linkname)
+			if j, ok := pos[tgt]; ok && j > i {
+				ev.Class("hardlink-order-checked")
+				return pbt.Violf("hardlink-before-target", "entry %d %q is a hard link to %q, which only comes at position %d of the output: the stream cannot be unpacked in order (output order %v)", i, e.Hdr.Name, e.Hdr.Linkname, j, names(got))
+			}
+			ev.Class("hardlink-order-checked")
+		}
 	}
 	if producer == "build" {
 		// order is C14's business: compare as sets by clean name (unique after de-duplication)
